@@ -214,6 +214,9 @@ def stmt_start(m, pos):
 
 
 def stmt_end(m, pos):
+    mt = re.match(r'(while|for|loop)\b', m[pos:])
+    if mt:      # a loop is a statement of its own: it ends with its body
+        return match_close(m, loop_body_open(m, pos, mt.group(1))) + 1
     j = pos
     while j < len(m):
         ch = m[j]
@@ -227,11 +230,18 @@ def stmt_end(m, pos):
     return len(m)
 
 
-def apply_insertions(body, loops, hints, fname, notes):
+def apply_insertions(body, loops, hints, fname, notes, edges=None):
     """loops: {k: text}; hints: [(alternatives, text)] with alternatives = [(where, regex, k)]"""
     ins = []   # (offset, text)
     m = mask(body)
     lps = find_loops(body)
+    for (kind, k), text in (edges or {}).items():
+        if k < 1 or k > len(lps):
+            raise ExtractError('%s: loop #%d not found (body has %d loops)' % (fname, k, len(lps)))
+        pos, kw = lps[k - 1]
+        op = loop_body_open(m, pos, kw)
+        # the invariant text goes in front of the brace (same offset): order the two by a tie-breaker below
+        ins.append((op + 1, '\n' + text.rstrip() + '\n') if kind == 'LOOPSTART' else (match_close(m, op), '\n' + text.rstrip() + '\n'))
     for k, text in loops.items():
         if k < 1 or k > len(lps):
             raise ExtractError('%s: loop #%d not found (body has %d loops)' % (fname, k, len(lps)))
@@ -391,6 +401,8 @@ def expand(template_path, repo_src_dir, canary=False):
         kv = parse_kv(d)
         sections = {'SPEC': '', 'PROLOGUE': ''}
         loops, hints = {}, []
+        binds = []
+        edges = {}
         optional_loops = set()
         cur = None
         i += 1
@@ -402,11 +414,22 @@ def expand(template_path, repo_src_dir, canary=False):
                     break
                 if d2 in ('SPEC', 'PROLOGUE'):
                     cur = ('sec', d2)
+                elif d2.startswith('LOOPSTART') or d2.startswith('LOOPEND'):
+                    # proof text at the very start / very end of the body of loop k (no anchor in the code needed)
+                    cur = ('edge', (d2.split()[0], int(d2.split()[1])))
+                    edges[cur[1]] = ''
                 elif d2.startswith('LOOP'):
                     cur = ('loop', int(d2.split()[1]))
                     loops[cur[1]] = ''
                     if d2.startswith('LOOP?'):
                         optional_loops.add(cur[1])
+                elif d2.startswith('BIND'):
+                    # BIND name /regex with one group/: `$name` in the proof text stands for the identifier the code uses
+                    mt = re.match(r'BIND\s+(\w+)\s+/((?:[^/\\]|\\.)*)/\s*$', d2)
+                    if not mt:
+                        raise ExtractError('bad BIND: %s' % s2)
+                    binds.append((mt.group(1), mt.group(2)))
+                    cur = None
                 elif d2.startswith('HINT'):
                     hints.append([parse_hint_alts(d2[4:]), ''])
                     cur = ('hint', len(hints) - 1)
@@ -417,6 +440,8 @@ def expand(template_path, repo_src_dir, canary=False):
                     pass
                 elif cur[0] == 'sec':
                     sections[cur[1]] += tl[i] + '\n'
+                elif cur[0] == 'edge':
+                    edges[cur[1]] += tl[i] + '\n'
                 elif cur[0] == 'loop':
                     loops[cur[1]] += tl[i] + '\n'
                 else:
@@ -462,9 +487,49 @@ def expand(template_path, repo_src_dir, canary=False):
                 rs = receiver_start(mm, mt.start())
                 rw.note('R9', body[rs:mt.end()])
                 body = body[:rs] + 'array_iter(' + body[rs:mt.start()].rstrip() + ')' + body[mt.end():]
+        if kv.get('ptr_get'):
+            # R11: RECV.get()  =>  self.at(RECV): the dereference of a list pointer names the cache whose heap it reads
+            while True:
+                mm = mask(body)
+                mt = re.search(r'\.\s*get\s*\(\s*\)', mm)
+                if not mt:
+                    break
+                rs = receiver_start(mm, mt.start())
+                rw.note('R11', body[rs:mt.end()])
+                body = body[:rs] + 'self.at(' + body[rs:mt.start()].rstrip() + ')' + body[mt.end():]
+        # conditional proof lines: `//?/regex/ text` is kept only if the code matches, `//!/regex/ text` only if it does not
+        def cond_(t):
+            outl = []
+            for ln_ in t.split('\n'):
+                mc = re.match(r'\s*//([?!])/((?:[^/\\]|\\.)*)/(.*)$', ln_)
+                if not mc:
+                    outl.append(ln_)
+                    continue
+                hit = re.search(mc.group(2), mask(body)) is not None
+                if hit == (mc.group(1) == '?'):
+                    outl.append(mc.group(3))
+                    rw.note('COND', '%s/%s/' % (mc.group(1), mc.group(2)))
+            return '\n'.join(outl)
+        sections = {k: cond_(v) for k, v in sections.items()}
+        loops = {k: cond_(v) for k, v in loops.items()}
+        hints = [[a, cond_(t)] for a, t in hints]
+        edges = {k: cond_(v) for k, v in edges.items()}
+        for bname, brx in binds:
+            mt = re.search(brx, mask(body))
+            if not mt:
+                gen.notes.append({'function': fname, 'lost_anchor': ['BIND %s /%s/' % (bname, brx)]})
+                continue
+            ident = body[mt.start(1):mt.end(1)]
+            if ident != bname:
+                rw.note('BIND', '$%s = %s' % (bname, ident))
+            sub_ = lambda t: re.sub(r'\$%s\b' % re.escape(bname), ident, t)
+            sections = {k: sub_(v) for k, v in sections.items()}
+            loops = {k: sub_(v) for k, v in loops.items()}
+            hints = [[a, sub_(t)] for a, t in hints]
+            edges = {k: sub_(v) for k, v in edges.items()}
         nl = len(find_loops(body))
         loops = {k: v for k, v in loops.items() if not (k in optional_loops and k > nl)}
-        body = apply_insertions(body, loops, [(a, t) for a, t in hints], fname, gen.notes)
+        body = apply_insertions(body, loops, [(a, t) for a, t in hints], fname, gen.notes, edges)
         sig = '    %s%s%s%s' % (vis, unsafe, head, params)
         if ret:
             sig += ' -> (%s: %s)' % (rname, ret)
